@@ -15,43 +15,60 @@ import numpy as np
 
 from vf import core
 from vf.core import CorrResult, Disagreement, Failure
+from translator import redvar as tr
 from . import series_common as sc
 
 ID = "C18"
 PROPS = "props/C18.v"
-GENERATED: list = []
+GENERATED = [tr.OUT]
 CASE_DEPS = ["lib/MxC18.vo", "model/RedVar.vo"]
+
+
+def translate(ctx):
+    tr.run()
+
 ALLOWED_AXIOMS: set = set()          # MathComp + lists + Bignums: the theorems are closed under the global context
 TRUSTED = [
+    "translator/redvar.py (fail-closed): ordinary_least_squares, symmetrize, the residual / covariance / degrees-of-freedom "
+    "lines of _estimate_variant, the Dimensions properties and the priors' get_num_obs are regenerated into "
+    "gen/RedVarGen.v on every run; the model is defined in terms of them",
     "numpy.linalg.solve is a contract (section hypothesis: the returned X satisfies M X = N when M is invertible; the "
     "executable instance uses exact Gauss-Jordan elimination over bigQ)",
     "scipy.linalg.solve_discrete_lyapunov and numpy.linalg.eigvals are contracts: the recorded Lyapunov solution is "
     "checked against the model's companion system in exact arithmetic on every case, the reported eigenvalues against "
     "the exact characteristic polynomial of the model's companion matrix",
-    "Dataslate construction (databox -> array, fallbacks of missing residuals to 0, array -> databox) and Python "
-    "glue around the modelled core are tied by the correspondence only",
+    "Dataslate construction (databox -> array, fallback of missing residuals to 0, array -> databox), the lag stacking, the "
+    "mask, the prior dummy arrays, the companion matrices and the simulation loop are hand-modelled and tied by the "
+    "correspondence (bit-exact for stacking / mask / OLS inputs, 1e-7 tolerance against exact rationals otherwise)",
     "the list (option bigQ) instance of the matrix interface (lib/MxC18.v) is executed, not proved equal to the "
     "MathComp instance: both instantiate the same model text (model/RedVar.v)",
 ]
 ASSUMPTIONS = [
-    "theorems are exact over an arbitrary real field (no rounding); the implementation is compared with the model "
-    "evaluated in exact rational arithmetic within 1e-7*(1+|x|), masks / lag stacking / OLS inputs bit-exactly",
-    "RedVAR order >= 1 and at least one endogenous variable",
-    "dof_correction subtracts num_exogenous + intercept (what the code does), not the number of lagged regressors",
+    "theorems are exact over an arbitrary field (characteristic not 2 for the covariance); no rounding: the implementation "
+    "is compared with the model evaluated in exact rational arithmetic within 1e-7*(1+|x|), masks / lag stacking / OLS "
+    "inputs bit-exactly",
+    "RedVAR order >= 1 and at least one endogenous variable; R R' invertible (full column rank) wherever the estimate is "
+    "claimed to be the least-squares solution",
+    "dof_correction subtracts num_exogenous + intercept (what the code does; regenerated), not the number of lagged "
+    "regressors; the falsifier accepts either convention",
+    "simulate(estimate) = data is claimed up to the first period with an incomplete column (missing residuals are "
+    "replaced by 0 by the dataslate fallbacks, after which the paths differ by construction)",
 ]
 MANIFEST = {
-    "technique": "Coq/MathComp proof over an arbitrary real field of one model text (matrix interface) that is also executed "
-                 "on exact rationals and compared with RedVAR's public API",
+    "technique": "Coq/MathComp proof over an arbitrary field of one model text (matrix interface) whose formula fragments are "
+                 "regenerated from the source, which is also executed on exact rationals and compared with RedVAR's public API",
     "level_text": "Theorems (props/C18.v) for every number of endogenous/exogenous variables, order, sample size, selection of "
                   "fitted columns, prior dummy observations, intercept on/off, dof correction on/off: the OLS estimate solves the "
                   "normal equations and its residuals are orthogonal to the regressors on the fitted (and dummy) columns; fitted + "
                   "residual = data on every column; noise-free data return the generating coefficients; the covariance is the "
-                  "(corrected) second moment and is symmetric; the mask selects exactly the complete columns and the lag stacking "
-                  "reads y(t-i); simulating any (A,B,c) with its own residuals reproduces the data (induction over periods on the "
-                  "companion recursion); (I - sum A_i) mean = c; the companion matrix acts as the stacked recursion and its "
-                  "eigenvectors are exactly the geometric lag stacks; autocovariances are blocks of T^j Omega.",
-    "level_note": "Partial: numpy.linalg.solve, the Lyapunov solver and eigvals are contracts; rounding is outside (tolerance tie); "
-                  "the dataslate plumbing is tied by correspondence only.",
+                  "(corrected) second moment and is symmetric; the mask selects exactly the complete columns, in order, and row "
+                  "i*n+v of the lag stack is lag i+1 of variable v; simulating any (A,B,c) with the residuals the model stores "
+                  "reproduces the data (induction over periods on the companion recursion); (I - sum A_i) mean = c and the mean is "
+                  "the rest point; the companion matrix acts as the stacked recursion and its eigenvectors are exactly the "
+                  "geometric lag stacks; autocovariances are blocks of T^j Omega with Gamma_0 = A Omega A' + Sigma.",
+    "level_note": "Partial: numpy.linalg.solve, the Lyapunov solver and eigvals are contracts (hypotheses); rounding is outside "
+                  "(tolerance tie); the dataslate plumbing, stacking loop and simulate_flat loop are tied by correspondence only. "
+                  "Trusted: Coq kernel + vm_compute, Bignums, translator/redvar.py, harness. No axioms (all theorems closed).",
 }
 
 TOL = 1e-7
@@ -241,29 +258,34 @@ def run_impl(spec) -> dict:
         db, span, model, ynames, xnames = build(spec)
     except Exception as e:  # noqa
         return {"error": _exc("build", e)}
+    acc = acc_error = sim = sim_error = None
     with recorders(events):
         try:
             with np.errstate(all="ignore"):
                 out = model.estimate(db, span, **estimate_kwargs(spec))
         except Exception as e:  # noqa
             return {"error": _exc("estimate", e)}
-        res = {"variants": []}
+        n_est = len(events)
         try:
             systems = model.get_system_matrices(unpack_singleton=False)
-            n_est = len(events)
-            with np.errstate(all="ignore"):
-                means = model.get_mean(unpack_singleton=False)
-                eigs = model.get_eigenvalues(unpack_singleton=False)
-                acovs = model.get_acov(up_to_order=2, unpack_singleton=False)
-                comps = model.get_companion_matrices(unpack_singleton=False)
-            lyaps = [ev[1] for ev in events[n_est:] if ev[0] == "lyap"]
         except Exception as e:  # noqa
-            return {"error": _exc("accessors", e)}
+            return {"error": _exc("get_system_matrices", e)}
+        try:
+            with np.errstate(all="ignore"):
+                acc = {"mean": model.get_mean(unpack_singleton=False),
+                       "eig": model.get_eigenvalues(unpack_singleton=False),
+                       "acov": model.get_acov(up_to_order=2, unpack_singleton=False),
+                       "comp": model.get_companion_matrices(unpack_singleton=False)}
+            acc["lyap"] = [ev[1] for ev in events[n_est:] if ev[0] == "lyap"]
+            if len(acc["lyap"]) != nv:
+                raise RuntimeError(f"{len(acc['lyap'])} Lyapunov solutions recorded for {nv} variants")
+        except Exception as e:  # noqa
+            acc, acc_error = None, _exc("accessors", e)
         try:
             with np.errstate(all="ignore"):
                 sim = model.simulate(out, span)
         except Exception as e:  # noqa
-            return {"error": _exc("simulate", e)}
+            sim, sim_error = None, _exc("simulate", e)
     eds = [ev[1] for ev in events[:n_est] if ev[0] == "ed"]
     # the last OLS call before the next _get_estimation_data belongs to the variant
     ols_by_variant, cur = [], None
@@ -276,31 +298,44 @@ def run_impl(spec) -> dict:
             cur.append(payload)
     if cur is not None:
         ols_by_variant.append(cur)
-    if not (len(systems) == len(eds) == len(ols_by_variant) == len(lyaps) == nv):
+    if not (len(systems) == len(eds) == len(ols_by_variant) == nv) or not all(ols_by_variant):
         return {"error": {"stage": "variants", "exc": "CountMismatch",
-                          "msg": f"systems={len(systems)} ed={len(eds)} ols={len(ols_by_variant)} lyap={len(lyaps)} nv={nv}"}}
+                          "msg": f"systems={len(systems)} ed={len(eds)} ols={len(ols_by_variant)} nv={nv}"}}
     long_span = ir.Span(span.start - p, span.end)
     s0 = span.start
-    for v in range(nv):
-        S = systems[v]
-        y0, y1, x, k, where = eds[v]
-        L, R = ols_by_variant[v][-1]
-        U = np.vstack([_variant_col(out[f"res_{nm}"].get_data(span), v) for nm in ynames])
-        simv = np.vstack([_variant_col(sim[nm].get_data(long_span), v) for nm in ynames])
-        ev = np.array(eigs[v], dtype=complex)
-        res["variants"].append({
-            "y0": y0, "y1": y1, "x": x, "k": k, "where": [bool(b) for b in where],
-            "fitted": [int(per - s0) for per in model._variants[v].fitted_periods],
-            "L": L, "R": R,
-            "A": np.array(S.A, dtype=float), "B": np.array(S.B, dtype=float).reshape(n, m),
-            "c": None if S.c is None else np.array(S.c, dtype=float),
-            "cov": np.array(S.cov_residuals, dtype=float), "U": U,
-            "mean": np.array(means[v], dtype=float), "eig": ev,
-            "T": np.array(comps[v].T, dtype=float), "P": np.array(comps[v].P, dtype=float),
-            "K": np.array(comps[v].K, dtype=float),
-            "Om": lyaps[v], "acov": [np.array(a, dtype=float) for a in acovs[v]], "sim": simv,
-        })
+    res = {"variants": [], "acc_error": acc_error, "sim_error": sim_error}
+    try:
+        for v in range(nv):
+            S = systems[v]
+            y0, y1, x, k, where = eds[v]
+            L, R = ols_by_variant[v][-1]
+            U = np.vstack([_variant_col(out[f"res_{nm}"].get_data(span), v) for nm in ynames])
+            ov = {
+                "y0": y0, "y1": y1, "x": x, "k": k, "where": [bool(b) for b in where],
+                "fitted": [int(per - s0) for per in model._variants[v].fitted_periods],
+                "L": L, "R": R,
+                "A": np.array(S.A, dtype=float), "B": np.array(S.B, dtype=float).reshape(n, m),
+                "c": None if S.c is None else np.array(S.c, dtype=float),
+                "cov": np.array(S.cov_residuals, dtype=float), "U": U, "acc": None, "sim": None,
+            }
+            if acc is not None:
+                ov["acc"] = {
+                    "mean": np.array(acc["mean"][v], dtype=float), "eig": np.array(acc["eig"][v], dtype=complex),
+                    "T": np.array(acc["comp"][v].T, dtype=float), "P": np.array(acc["comp"][v].P, dtype=float),
+                    "K": np.array(acc["comp"][v].K, dtype=float), "Om": acc["lyap"][v],
+                    "acov": [np.array(a, dtype=float) for a in acc["acov"][v]],
+                }
+            if sim is not None:
+                ov["sim"] = np.vstack([_variant_col(sim[nm].get_data(long_span), v) for nm in ynames])
+            res["variants"].append(ov)
+    except Exception as e:  # noqa
+        return {"error": _exc("observe", e)}
     return res
+
+
+def coefficients_finite(ov) -> bool:
+    return bool(np.all(np.isfinite(ov["A"])) and np.all(np.isfinite(ov["B"])) and np.all(np.isfinite(ov["cov"]))
+                and (ov["c"] is None or np.all(np.isfinite(ov["c"]))))
 
 
 def _variant_col(arr, v):
@@ -391,17 +426,24 @@ def coq_check(spec, v, out_v) -> str:
     else:
         o = out_v
         c = np.zeros((n, 0)) if o["c"] is None else o["c"].reshape(n, 1)
-        poly = np.real(np.poly(o["eig"])) if len(o["eig"]) else np.array([1.0])
+        par = lambda f: f if f.startswith("[") or f == "None" else f"({f})"
+        if o["acc"] is None:
+            acc = "None"
+        else:
+            a = o["acc"]
+            poly = np.real(np.poly(a["eig"])) if len(a["eig"]) else np.array([1.0])
+            afields = [coq_mx(a["mean"], n), coq_vec(poly.tolist()), coq_mx(a["T"]), coq_mx(a["P"]), coq_mx(a["K"]),
+                       coq_mx(a["Om"]), "[" + ";\n    ".join(coq_mx(g) for g in a["acov"]) + "]"]
+            acc = "Some (mkAcc\n    " + "\n    ".join(par(f) for f in afields) + ")"
+        sim = "None" if (o["sim"] is None or has_inf(spec)) else f"Some {coq_mx(o['sim'], n)}"
         fields = [
             coq_mx(o["y0"], n), coq_mx(o["y1"], n * p), coq_mx(o["x"], m), coq_mx(o["k"], k),
             coq_bools(o["where"]), coq_nats(o["fitted"]),
             coq_mx(o["L"], n), coq_mx(o["R"], n * p + m + k),
             coq_mx(o["A"], n), coq_mx(o["B"], n), coq_mx(c, n), coq_mx(o["U"], n), coq_mx(o["cov"], n),
-            coq_mx(o["mean"], n), coq_vec(poly.tolist()), coq_mx(o["T"]), coq_mx(o["P"]), coq_mx(o["K"]),
-            coq_mx(o["Om"]), "[" + ";\n    ".join(coq_mx(a) for a in o["acov"]) + "]",
-            "None" if has_inf(spec) else f"(Some {coq_mx(o['sim'], n)})",
+            acc, sim,
         ]
-        exp = "(Some (mkExpect\n   " + "\n   ".join(f"({f})" if not f.startswith("[") else f for f in fields) + "))"
+        exp = "(Some (mkExpect\n   " + "\n   ".join(par(f) for f in fields) + "))"
     return (f"check tol {n}%nat {p - 1}%nat {m}%nat {k}%nat {'true' if spec['omit_missing'] else 'false'} "
             f"{'true' if spec['dof'] else 'false'} {coq_priors(spec)}\n   {ys_c}\n   {xs_c}\n   {exp}")
 
@@ -476,6 +518,18 @@ def _rel(a, b=None):
     return float(np.max(np.abs(a))) / sc_
 
 
+def _raise_key(spec, e) -> str:
+    tags = []
+    if e["stage"] == "estimate" and not spec["intercept"]:
+        tags.append("intercept=False")
+    if e["stage"] == "simulate":
+        if spec["m"]:
+            tags.append("exogenous")
+        if spec["p"] >= 2:
+            tags.append("order>=2")
+    return f"{e['stage']}:raises:{e['exc']}" + (":" + ",".join(tags) if tags else "")
+
+
 def property_checks(spec, res, first_only=False) -> list[Failure]:
     """The property C18 stated on the implementation's outputs (numpy only)."""
     n, m, p, N = spec["n"], spec["m"], spec["p"], spec["N"]
@@ -493,18 +547,10 @@ def property_checks(spec, res, first_only=False) -> list[Failure]:
             return fails
         if e["exc"] == "LinAlgError":
             return fails          # singular normal equations: outside the property (full column rank is assumed)
-        tags = []
-        if e["stage"] == "estimate" and not spec["intercept"]:
-            tags.append("intercept=False")
-        if e["stage"] == "simulate":
-            if m:
-                tags.append("exogenous")
-            if p >= 2:
-                tags.append("order>=2")
-        key = f"{e['stage']}:raises:{e['exc']}" + (":" + ",".join(tags) if tags else "")
-        fail(key, f"RedVAR.{e['stage']} raises {e['exc']}: {e['msg']}", f"{e['exc']}: {e['msg']}", "a result")
+        fail(_raise_key(spec, e), f"RedVAR.{e['stage']} raises {e['exc']}: {e['msg']}", f"{e['exc']}: {e['msg']}", "a result")
         return fails
     Ld, Rd = np_dummies(spec)
+    all_finite = True
     for v, o in enumerate(res["variants"]):
         Y, X, y0, y1, x, kk, R, w = np_stack(spec, v)
         A, B, cov, U = o["A"], o["B"], o["cov"], o["U"]
@@ -513,11 +559,13 @@ def property_checks(spec, res, first_only=False) -> list[Failure]:
         # mask: fitted periods are exactly the complete columns
         want = [int(i) for i in np.flatnonzero(w)]
         if o["fitted"] != want:
+            all_finite = False
             fail("mask", "fitted periods are not exactly the periods with complete data", o["fitted"], want, v)
             continue
-        if not np.all(np.isfinite(A)) or not np.all(np.isfinite(B)) or not np.all(np.isfinite(c)):
+        if not coefficients_finite(o):
+            all_finite = False
             if spec["omit_missing"]:
-                fail("estimate:nonfinite", "non-finite coefficients from complete fitted columns", None, None, v)
+                fail("estimate:nonfinite", "non-finite estimates from complete fitted columns", None, None, v)
             continue
         beta = np.hstack([A, B.reshape(n, m), c.reshape(n, 1)[:, :k]])
         # fit + residual = data on every fitted observation
@@ -548,38 +596,46 @@ def property_checks(spec, res, first_only=False) -> list[Failure]:
         # companion form: mean, eigenvalues, autocovariances
         np_ = n * p
         T = np.vstack([A, np.eye(np_ - n, np_)])
-        Asum = sum(A[:, i * n:(i + 1) * n] for i in range(p))
-        if _rel((np.eye(n) - Asum) @ o["mean"] - c, c) > 1e-8 and np.linalg.cond(np.eye(n) - Asum) < 1e8:
-            fail("mean", "(I - sum A_i) mean != c", o["mean"].tolist(), None, v)
-        ev = np.sort_complex(np.array(o["eig"], dtype=complex))
         ref = np.sort_complex(np.linalg.eigvals(T))
-        if len(ev) != np_ or np.max(np.abs(np.poly(ev) - np.poly(ref))) > 1e-7 * (1 + np.max(np.abs(np.poly(ref)))):
-            fail("eigenvalues", "reported eigenvalues are not those of the companion matrix", [str(z) for z in ev],
-                 [str(z) for z in ref], v)
         rho = np.max(np.abs(ref)) if np_ else 0.0
-        if rho < 0.98:
-            Sg = np.zeros((np_, np_)); Sg[:n, :n] = cov
-            Om = np.linalg.solve(np.eye(np_ * np_) - np.kron(T, T), Sg.reshape(-1)).reshape(np_, np_)
-            cur = Om
-            for j, G in enumerate(o["acov"]):
-                if _rel(G - cur[:n, :n], cur) > 1e-7:
-                    fail("acov", f"autocovariance of order {j} is not that of the companion form", G.tolist(),
-                         cur[:n, :n].tolist(), v)
-                    break
-                cur = T @ cur
+        if o["acc"] is not None:
+            a = o["acc"]
+            Asum = sum(A[:, i * n:(i + 1) * n] for i in range(p))
+            if _rel((np.eye(n) - Asum) @ a["mean"] - c, c) > 1e-8 and np.linalg.cond(np.eye(n) - Asum) < 1e8:
+                fail("mean", "(I - sum A_i) mean != c", a["mean"].tolist(), None, v)
+            ev = np.sort_complex(np.array(a["eig"], dtype=complex))
+            if len(ev) != np_ or np.max(np.abs(np.poly(ev) - np.poly(ref))) > 1e-7 * (1 + np.max(np.abs(np.poly(ref)))):
+                fail("eigenvalues", "reported eigenvalues are not those of the companion matrix", [str(z) for z in ev],
+                     [str(z) for z in ref], v)
+            if rho < 0.98:
+                Sg = np.zeros((np_, np_)); Sg[:n, :n] = cov
+                Om = np.linalg.solve(np.eye(np_ * np_) - np.kron(T, T), Sg.reshape(-1)).reshape(np_, np_)
+                cur = Om
+                for j, G in enumerate(a["acov"]):
+                    if _rel(G - cur[:n, :n], cur) > 1e-7:
+                        fail("acov", f"autocovariance of order {j} is not that of the companion form", G.tolist(),
+                             cur[:n, :n].tolist(), v)
+                        break
+                    cur = T @ cur
         # simulate(estimate) = data on the estimation span, up to the first incomplete column
-        sim = o["sim"]
-        first_bad = N if np.all(w) else int(np.flatnonzero(~w)[0])
-        init_ok = np.all(np.isfinite(Y[:, :p]))
-        if init_ok and first_bad > 0:
-            growth = max(1.0, rho) ** first_bad
-            err = _rel(sim[:, p:p + first_bad] - y0[:, :first_bad], y0[:, :first_bad])
-            if not err <= 1e-9 * growth * 1e2:
-                key = f"roundtrip:order{'>=2' if p >= 2 else '=1'}:{'exogenous' if m else 'plain'}"
-                fail(key, "simulating the estimated VAR over the estimation span with the estimated residuals does not "
-                          "return the data", err, "<= 1e-7", v)
+        if o["sim"] is not None:
+            sim = o["sim"]
+            first_bad = N if np.all(w) else int(np.flatnonzero(~w)[0])
+            init_ok = np.all(np.isfinite(Y[:, :p]))
+            if init_ok and first_bad > 0:
+                growth = max(1.0, rho) ** first_bad
+                err = _rel(sim[:, p:p + first_bad] - y0[:, :first_bad], y0[:, :first_bad])
+                if not err <= 1e-9 * growth * 1e2:
+                    key = f"roundtrip:order{'>=2' if p >= 2 else '=1'}:{'exogenous' if m else 'plain'}"
+                    fail(key, "simulating the estimated VAR over the estimation span with the estimated residuals does "
+                              "not return the data", err, "<= 1e-7", v)
         if first_only and fails:
             break
+    # accessors / simulate must not raise on finite estimates
+    for e in (res.get("acc_error"), res.get("sim_error")):
+        if e is not None and all_finite and e["exc"] != "LinAlgError":
+            fail(_raise_key(spec, e), f"RedVAR {e['stage']} raise {e['exc']}: {e['msg']}", f"{e['exc']}: {e['msg']}",
+                 "a result")
     return fails
 
 
@@ -603,7 +659,7 @@ def _tolerance_confirmed(spec, res, codes) -> bool:
 
 def correspondence(ctx) -> CorrResult:
     rng = ctx.rng
-    n_specs = ctx.scale(130, 4000)
+    n_specs = ctx.scale(110, 2600)
     specs = [gen_spec(rng, nodata=(i % 29 == 28)) for i in range(n_specs)]
     res = CorrResult()
     dist = {"n": {}, "m": {}, "order": {}, "intercept": {}, "dof": {}, "priors": {}, "variants": {}, "freq": {},
@@ -631,12 +687,22 @@ def correspondence(ctx) -> CorrResult:
             res.disagreements.append(Disagreement(
                 f"{e['stage']} raises {e['exc']} (model: defined)", {"spec": spec}, "a result", f"{e['exc']}: {e['msg']}"))
             continue
+        finite = all(coefficients_finite(ov) for ov in out["variants"])
+        for e in (out["acc_error"], out["sim_error"]):
+            if e is not None:
+                dist["impl_errors"][f"{e['stage']}:{e['exc']}"] = dist["impl_errors"].get(f"{e['stage']}:{e['exc']}", 0) + 1
+                if finite and e["exc"] != "LinAlgError":
+                    res.disagreements.append(Disagreement(
+                        f"{e['stage']} raises {e['exc']} (model: defined)", {"spec": spec}, "a result",
+                        f"{e['exc']}: {e['msg']}"))
         for v, ov in enumerate(out["variants"]):
             if not all(ov["where"]):
                 dist["missing_columns"] += 1
-            bad = not spec["omit_missing"] and not all(np.all(np.isfinite(ov[key])) for key in ("L", "R"))
-            if bad:
-                continue         # NaN inside the normal equations: numpy returns unspecified garbage
+            if not all(np.all(np.isfinite(ov[key])) for key in ("L", "R")) and not spec["omit_missing"]:
+                dist["nan_in_normal_equations"] = dist.get("nan_in_normal_equations", 0) + 1
+                continue         # omit_missing=False with NaN inside the normal equations: numpy returns unspecified garbage
+            if not coefficients_finite(ov):
+                ov = dict(ov, acc=None, sim=None)
             items.append((spec, v, ov))
     res.evaluations = len(items)
     res.distinct_nontrivial = len({json.dumps([s, v], sort_keys=True, default=str) for s, v, o in items if o is not None})
@@ -660,7 +726,7 @@ def correspondence(ctx) -> CorrResult:
         loads[j] += weight(it)
     shards = [sh for sh in shards if sh]
     texts = [shard_text(sh) for sh in shards]
-    results = core.run_cases(ctx, texts)
+    results = core.run_cases(ctx, texts, timeout=2400)
     res.shards = len(texts)
     unconfirmed = 0
     for kx, (ok, out) in enumerate(results):
@@ -754,7 +820,7 @@ def falsify(ctx, hints):
         if isinstance(inp, dict) and "spec" in inp:
             info["from_disagreements"] += 1
             fails += property_checks(inp["spec"], run_impl(inp["spec"]))
-    n = ctx.scale(120, 3000)
+    n = ctx.scale(120, 2600)
     for it in range(n):
         spec = gen_spec(rng, nodata=False)
         res = run_impl(spec)
